@@ -272,7 +272,7 @@ fn stored_eq_source_corner(rep: &Report, seed: u64, tier: Tier) {
 
 pub fn run(tier: Tier, seed: u64) -> i32 {
     let rep = Report::new("C01", "exploration", tier, seed);
-    let n = tier.pick(300, 4500);
+    let n = tier.pick(600, 7000);
     let nlarge = tier.pick(6, 50);
     let total = n + nlarge;
     let viols = par_map(total, crate::util::ncpu(), |i| {
